@@ -99,7 +99,7 @@ def check_flows(ctx, dct, wr, pr, rp, num=2):
             col = k.value
             ok = norm.U(v) == f"{rowp}.{col}"
             how = "identity"
-            if not ok and col in OPTIONAL and isinstance(v, ast.IfExp):
+            if not ok and isinstance(v, ast.IfExp):       # for a required column the same thing: csv writes None as the empty cell anyway
                 t = norm.nnf(v.test)
                 ok = t == ("cmp", "isnot", f"{rowp}.{col}", "None") and norm.U(v.body) == f"{rowp}.{col}" and isinstance(v.orelse, ast.Constant) and v.orelse.value == ""
                 how = "value if it is not None else ''"
